@@ -1,6 +1,7 @@
 package main
 
 import (
+	"os"
 	"strings"
 	"fmt"
 	"strconv"
@@ -264,7 +265,7 @@ func (ex *Exec) verifyFunc(fn *ssa.Function, c *Contract) {
 	var fdecl *frameDecl
 	// the modifies clause is CHECKED (frame obligations) for the functions that
 	// carry a C20-tagged clause; elsewhere it is a declared, unchecked assumption
-	if c.HasMod && c.Props["C20"] {
+	if c.HasMod && (c.Props["C20"] || os.Getenv("GOVC_ALLFRAMES") != "") {
 		fd, err := ex.parseFrame(st, c, env)
 		if err != nil {
 			ex.errors = append(ex.errors, fmt.Sprintf("modifies clause: %v", err))
